@@ -61,7 +61,8 @@ let range_s size (r : range) =
 let explain size (t : tres) (v : vis) =
   match t with
   | TNone -> "-"
-  | TFail -> "FAIL" | TAbort -> "ABORT" | TFuel -> "FUEL"
+  | TFail -> if v = VisNone then "FAIL" else "-"   (* NULL: asn1print prints nothing; only the unflagged run is fatal (asn1f_check_constraints) *)
+  | TAbort -> "ABORT" | TFuel -> "FUEL"
   | TOk r ->
       if r.r_incompat then "-"
       else if v = VisOER && r.r_notOER then "-"
@@ -85,7 +86,43 @@ let model_line ty chain =
     (col VisNone) (col VisOER) (col VisPER) (row_s pv) (row_s ps)
     (string_of_cz ow) (string_of_cz op) (string_of_cz os)
 
+(* ---- Spec side ---- *)
+let xz_s = function NegInf -> "MIN" | PosInf -> "MAX" | Fin z -> string_of_cz z
+let iset_s size ext (s : iset) =
+  let one (l, r) = if l = r then xz_s l else xz_s l ^ ".." ^ xz_s r in
+  let body = String.concat "|" (List.map one (normalize s)) ^ (if ext then ",..." else "") in
+  if size then "(SIZE(" ^ body ^ "))" else "(" ^ body ^ ")"
+
+let spec_line ty chain =
+  let (_, size) = p_type ty in
+  let e = per_effective size chain in
+  let x = ext chain in
+  let oer = match oer_effective size chain with
+    | None -> "unclaimed"
+    | Some oe ->
+        if oe.e_empty then "empty"
+        else if size then string_of_cz (oer_size_of_eff oe)
+        else let (w, p) = oer_number_of oe in string_of_cz w ^ "," ^ string_of_cz p in
+  Printf.sprintf "vis=%s x680=%s empty=%s PER=%s OER=%s lb=%s ub=%s"
+    (iset_s size x (root true size chain)) (iset_s size x (root false size chain))
+    (bool_s e.e_empty) (row_s (tables_of e)) oer (xz_s e.e_lb) (xz_s e.e_ub)
+
+(* known-finding classifier: the Spec changed by the rules named in the mask (letters of "aceu") *)
+let quirk_line mask ty chain =
+  let (_, size) = p_type ty in
+  let has c = String.contains mask c in
+  let q = { q_add = has 'a'; q_chain = has 'c'; q_empty = has 'e'; q_uext = has 'u' } in
+  let e = effq q size chain in
+  let anymark = List.exists (fun s -> match s with SRoot _ -> false | _ -> true) (List.concat chain) in
+  let oer = if anymark then "unclaimed" else if e.e_empty then "empty"
+    else if size then string_of_cz (oer_size_of_eff e)
+    else let (w, p) = oer_number_of e in string_of_cz w ^ "," ^ string_of_cz p in
+  Printf.sprintf "vis=%s empty=%s PER=%s OER=%s"
+    (iset_s size e.e_ext (rootq q size chain)) (bool_s e.e_empty) (row_s (tablesq q e)) oer
+
 let dispatch cmd args =
   match cmd, args with
   | "c09", ty :: rest -> (try Some (model_line ty (p_chain rest)) with Parse s -> Some ("PARSE " ^ s))
+  | "quirk_c09", mask :: ty :: rest -> (try Some (quirk_line mask ty (p_chain rest)) with Parse s -> Some ("PARSE " ^ s))
+  | "spec_c09", ty :: rest -> (try Some (spec_line ty (p_chain rest)) with Parse s -> Some ("PARSE " ^ s))
   | _ -> None
